@@ -181,7 +181,7 @@ var c18LocRe = regexp.MustCompile(`in (\S+?):(\d+):(\d+)`)
 
 // C18: token spans (trace validation against Cursor.tla) and error locations (Diag.tla scenarios on the CLI).
 func C18(c *Ctx) *kf.Report {
-	rep := &kf.Report{Property: "C18", Level: "trace_validation", Coverage: map[string]any{}}
+	rep := &kf.Report{Property: "C18", Level: "model_checking", Coverage: map[string]any{}}
 	rep.Assumptions = []string{
 		"the recorder logs, per top-level token, its span, recorded line and the number of newline bytes before its start and end (the projection of the source the spec needs), plus whether the token text equals the source slice; Cursor.tla re-checks that projection for consistency (ProjectionSane)",
 		"token classes: everything is 'faithful' except interpolation tokens, heredoc / nowdoc bodies and quoted strings containing a backslash or a dollar sign",
